@@ -307,7 +307,12 @@ macro_rules! bezier_impl_cubic_axis {
                             None
                         }
                     } else {
-                        Some((-c / b, None))
+                        let t = -c / b;
+                        if T::zero() < t && t < T::one() {
+                            Some((t, None))
+                        } else {
+                            None
+                        }
                     };
                 }
 
